@@ -20,6 +20,7 @@ PROFILE_SETS = [
     [dict(profile="uniform", ncmd=150, seed=i) for i in range(4)],
     [dict(profile="hot", ncmd=100, seed=i, working_set=6) for i in range(8)],
     [dict(profile="samebank_rows", ncmd=250), dict(profile="wrw", ncmd=250, seed=3)],
+    [dict(profile="alias", ncmd=400, partial=0.0), dict(profile="uniform", ncmd=150, seed=5)],
 ]
 
 
@@ -30,17 +31,20 @@ def scenarios(tier, seed):
                 ("DDR", 2, dict(cmd_buffer_depth=4, cmd_buffer_buffered=True)), ("DDR2", 1, dict()),
                 ("DDR3", 2, dict(cmd_buffer_depth=8)), ("DDR3", 4, dict(cmd_buffer_depth=2)),
                 ("DDR3_half", 3, dict(cmd_buffer_depth=4, cmd_buffer_buffered=True, with_auto_precharge=False)),
-                ("DDR4", 5, dict(cmd_buffer_depth=4)), ("LPDDR", 0, dict(cmd_buffer_depth=2)), ("DDR3_200", 5, dict())]
+                ("DDR4", 5, dict(cmd_buffer_depth=4)), ("LPDDR", 0, dict(cmd_buffer_depth=2)), ("DDR3_200", 5, dict()),
+                ("SDR", 6, dict()), ("DDR3", 6, dict(cmd_buffer_depth=4))]
         for i, (b, ps, ctrl) in enumerate(plan):
-            out.append(scenario("%s-set%d-%d" % (b, ps, i), b, PROFILE_SETS[ps], seed * 977 + i, tech=dict(tREFI=1300 + 91 * i), ctrl=ctrl))
+            geo = dict(ncols=2048, nrows=8192) if ps == 6 else {}        # alias probes also run on geometries beyond A10
+            out.append(scenario("%s-set%d-%d" % (b, ps, i), b, PROFILE_SETS[ps], seed * 977 + i, tech=dict(tREFI=1300 + 91 * i), ctrl=ctrl, **geo))
     else:
         i = 0
         for b in ["SDR", "SDR166", "DDR", "LPDDR", "DDR2", "DDR3", "DDR3_200", "DDR3_half", "DDR4"]:
             for ps in range(len(PROFILE_SETS)):
                 for depth, buffered, ap in [(8, False, True), (2, True, False), (4, False, False), (16, True, True)]:
                     if (i + ps) % 2 == 0 or depth == 8:
+                        geo = dict(ncols=[2048, 4096][i % 2], nrows=8192) if ps == 6 else {}
                         out.append(scenario("%s-set%d-d%d%s%s" % (b, ps, depth, "b" if buffered else "", "ap" if ap else ""), b,
-                                            PROFILE_SETS[ps], seed * 977 + i, tech=dict(tREFI=1300 + 17 * (i % 40)),
+                                            PROFILE_SETS[ps], seed * 977 + i, tech=dict(tREFI=1300 + 17 * (i % 40)), **geo,
                                             ctrl=dict(cmd_buffer_depth=depth, cmd_buffer_buffered=buffered, with_auto_precharge=ap)))
                     i += 1
     return out + xbar_lockstep_scenarios(tier, seed)
